@@ -24,7 +24,8 @@ SOURCES = [
     '<dtml-in seq sort_expr="sk" reverse_expr="rv"><dtml-var sequence-item>,</dtml-in>|'
     '<dtml-in dl reverse><dtml-var sequence-item></dtml-in>|<dtml-in seq reverse><dtml-var sequence-item></dtml-in>',
     '',
-    '<dtml-in seq start=st size=2><dtml-var sequence-item>;</dtml-in><dtml-let x="1+1"><dtml-var x></dtml-let>'
+    # (with CR LF line ends: every way of giving the template its text keeps them the same way)
+    'Dear\r\n<dtml-if a>\r\n A \r\n</dtml-if>\r\n<dtml-in seq start=st size=2><dtml-var sequence-item>;</dtml-in><dtml-let x="1+1"><dtml-var x></dtml-let>'
     '<dtml-var sub><dtml-if a>A<dtml-var a><dtml-else>B</dtml-if><dtml-try><dtml-var nope><dtml-except>E</dtml-try>'
     # faults inside block tags that are handled inside the template: nothing of the failed block may stay behind
     '<dtml-try><dtml-let p="1" q=nope2>never</dtml-let><dtml-except>L</dtml-try><dtml-try><dtml-with o><dtml-in seq><dtml-var nope3></dtml-in>'
